@@ -843,12 +843,34 @@ func (c *Check) collectRules() {
 						if !ok {
 							continue
 						}
-						ex, ok := st.Val.(*ssa.Extract)
-						if !ok || !isIntType(ex.Type()) {
+						isCount := func(v ssa.Value) bool {
+							ex, ok := v.(*ssa.Extract)
+							if !ok || !isIntType(ex.Type()) {
+								return false
+							}
+							call, ok := ex.Tuple.(*ssa.Call)
+							return ok && call.Call.StaticCallee() != nil && call.Call.StaticCallee().Name() == "chunkedGrab"
+						}
+						// the whole outcome stored as one struct value (built here or by a helper):
+						// the field that holds chunkedGrab's count
+						if sty, isStruct := st.Val.Type().Underlying().(*types.Struct); isStruct {
+							if cell, _ := resolveCell(st.Addr); cell != nil {
+								for fi := 0; fi < sty.NumFields(); fi++ {
+									if !isIntType(sty.Field(fi).Type()) {
+										continue
+									}
+									if vals, ok := structFieldValues(p, st.Val, fi, 0); ok {
+										for _, fv := range vals {
+											if isCount(fv) {
+												slots = append(slots, slot{cell, "." + sty.Field(fi).Name(), st.Pos()})
+											}
+										}
+									}
+								}
+							}
 							continue
 						}
-						call, ok := ex.Tuple.(*ssa.Call)
-						if !ok || call.Call.StaticCallee() == nil || call.Call.StaticCallee().Name() != "chunkedGrab" {
+						if !isCount(st.Val) {
 							continue
 						}
 						base, loads := addrBase(st.Addr)
